@@ -125,6 +125,20 @@ def judge_pair(lib, rec, text, bg, large, vr, up, down):
         rec.maxi("max_returned_dE_on_witness_pairs", round(d, 4))
         if d > 2.0 + DE_SLACK:
             rec.violation(f"text={text} bg={bg} large={large} vr={vr} mode={mode}: witness exists but returned {colour} is dE {d:.3f} > 2.0 away", case)
+        # the same obligation through the bulk API, the pair placed after its twin at the other text size
+        if key is None:
+            try:
+                res = lib.make_readable_bulk([(text, bg, not large), (text, bg, large) if large else (text, bg)], mode=mode, very_readable=vr)
+                bcol, bstatus = res[1]
+                rec.count("bulk_route_judged")
+                want = "very readable" if vr else ("readable", "very readable")
+                okst = bstatus == want if vr else bstatus in want
+                bd = own_de(text, tuple(bcol)) if isinstance(bcol, tuple) else None
+                if not okst or bd is None or bd > 2.0 + DE_SLACK:
+                    rec.violation(f"text={text} bg={bg} large={large} vr={vr} mode={mode}: witness exists, but as a bulk entry after its twin at the other "
+                                  f"text size the result is {(bcol, bstatus)!r} (dE {bd})", dict(case, route="bulk"))
+            except Exception as e:
+                rec.violation(f"make_readable_bulk raised {type(e).__name__}: {e}", dict(case, route="bulk"))
         if len(rec.samples) < 3:
             rec.sample({"text": list(text), "bg": list(bg), "large": large, "vr": vr, "mode": mode, "witness": w,
                         "returned": list(colour), "success": success, "own_dE": round(d, 3)})
